@@ -149,6 +149,9 @@ SignEv ==
              \o When(~ok /\ pre.idx < N, V("C02", "Sign refused although unused indices remain"))
              \o When(~ok /\ (e.idx # pre.idx \/ b # pre.bds \/ ~e.rawsame), V("C02", "refused Sign changed the key"))
              \o When(e.pkid # pre.pkid, V("C02", "public key, address or seed reported by the object changed"))
+             \o When("keptsame" \in DOMAIN e /\ ~e.keptsame,
+                     V("C01", "a signature returned earlier was changed by a later call on the same key") \o
+                     V("C02", "a signature returned earlier was changed by a later call on the same key (its index field is no longer the one it was returned with)"))
              \* ---- C08
              \o FamCheckState(pre.fam, e.idx, b)
              \o (IF ok THEN FamCheckSig(pre.fam, sigkey, e.sig.d) ELSE <<>>))
@@ -192,7 +195,9 @@ Drop ==
   /\ keys' = [k \in (DOMAIN keys) \ {Ev.k} |-> keys[k]]
   /\ fams' = IF Ev.fam >= 0 THEN [f \in (DOMAIN fams) \ {Ev.fam} |-> fams[f]] ELSE fams
   /\ counts' = [counts EXCEPT !["Drop"] = @ + 1]
-  /\ UNCHANGED <<drift, firstDrift, viols, nviols>>
+  /\ Record(When("keptsame" \in DOMAIN Ev /\ ~Ev.keptsame,
+                 V("C02", "secret key, root or PUB_SEED handed out by the object changed after the object was dropped")))
+  /\ UNCHANGED <<drift, firstDrift>>
 
 \* re-creating a key from what the original exported did not return an object
 RebuildFailed ==
